@@ -11,8 +11,8 @@ from .. import base, docspec, drivers, explore, report
 from . import common
 
 PROP = "C02"
-KQ = ("CE", "CO", "CO0", "CEG")
-KT = KQ + ("CEE", "CD", "NL", "J")
+KQ = ("CE", "CO", "CO0", "CEG", "PPO")
+KT = KQ + ("PGO", "CEE", "CD", "NL", "J")
 
 _WS = re.compile(r"\s+")
 _WSRUN = re.compile(r"[ \t]+")
